@@ -175,3 +175,13 @@ Definition pbar_sweep (nmax : nat) : bool :=
         && pout_eqb (pbar_on c items None) (pbar c items))
         (None :: map Some (zseq 0 (n + 3)))) [true; false]) [true; false])
      (seq 0 (S nmax)).
+
+(* ================================================================== histories (several calls in one process) *)
+(* one verdict for a history: bit 0 if some call disagrees with the model, bit 1 if the checker rejects some output *)
+Definition vjoin (l : list Z) : Z :=
+  (if existsb Z.odd l then 1 else 0) + (if existsb (fun v => 2 <=? v) l then 2 else 0).
+(* a call of a history, also made alone in a fresh process: the two outputs must be identical *)
+Definition v_hist (v : Z) (same_as_alone : bool) : Z :=
+  if same_as_alone then v else if Z.odd v then v else v + 1.
+(* an exhausted generator object iterated again yields nothing and ends normally *)
+Definition v_exhausted (out : list (Z * Z) * option err) : Z := verdict (pout_eqb ([], None) out) true.
